@@ -2,6 +2,7 @@ package main
 
 import (
 	"fmt"
+	"os"
 	"sort"
 	"strings"
 )
@@ -97,7 +98,7 @@ func init() {
 			wi := w.writerPaths(fn)
 			fmt.Printf("== %s: %d paths truncated=%v\n", n, len(wi.paths), wi.truncated)
 			for i, p := range wi.paths {
-				if i > 40 {
+				if i > 40 && os.Getenv("HLINT_ALLPATHS") == "" {
 					break
 				}
 				var parts []string
